@@ -270,9 +270,9 @@ def nonlinear_config(h, mesh, spec, which, free=None):
             res = lambda v, w: (nh.ddot(nh.grad(w.p), nh.grad(v)) + nh.dot(w.p, w.p) * nh.dot(w.p, v) + w.p[0] * w.p.grad[1, 0] * v[1]
                                 - w.x[0] * v[0])
         elif which == 'composite':
-            nl = lambda u, q, v, r, w: ah.dot(ah.grad(u), ah.grad(v)) + u * q * v + q * r + u * u * r - w.x[0] * r
-            lin = lambda du, dq, v, r, w: (nh.dot(nh.grad(du), nh.grad(v)) + (du * w.pq + w.pu * dq) * v + dq * r + 2 * w.pu * du * r)
-            res = lambda v, r, w: (nh.dot(nh.grad(w.pu), nh.grad(v)) + w.pu * w.pq * v + w.pq * r + w.pu * w.pu * r - w.x[0] * r)
+            nl = lambda u, q, v, r, w: ah.dot(ah.grad(u), ah.grad(v)) + u * q * v + q * r + u * u * r - w.x[0] * r + (u - q) * v
+            lin = lambda du, dq, v, r, w: (nh.dot(nh.grad(du), nh.grad(v)) + (du * w.pq + w.pu * dq) * v + dq * r + 2 * w.pu * du * r + (du - dq) * v)
+            res = lambda v, r, w: (nh.dot(nh.grad(w.pu), nh.grad(v)) + w.pu * w.pq * v + w.pq * r + w.pu * w.pu * r - w.x[0] * r + (w.pu - w.pq) * v)
             extra = lambda p0: dict(pu=p0[0], pq=p0[1])
         else:
             raise ValueError(which)
@@ -311,6 +311,41 @@ def nonlinear_config(h, mesh, spec, which, free=None):
             h.concrete('shape', np.shape(J) == (N, N))
         if h.sym_mode and which == 'cubic':
             h.canary('canary: Jacobian without the derivative of the coefficient', J - _drop_term(h, basis, p0, N, nh, S, dt))
+
+
+def field_ops_config(h, variant):
+    """Arithmetic of the field objects integrands are written with (JaxDiscreteField / DiscreteField): every binary operator between
+    two fields, a field and an array, a field and a scalar equals the operator applied to the values, for all values."""
+    if variant == 'jax':
+        from skfem.autodiff import JaxDiscreteField as Fld
+    else:
+        from skfem.element import DiscreteField as Fld
+    a = h.sym('a', (2, 2), nominal=np.array([[1.5, -0.75], [2.25, 0.5]]))
+    b = h.sym('b', (2, 2), nominal=np.array([[0.625, 1.25], [-1.5, 2.0]]))
+    c = h.sym('c', (), nominal=1.375)
+    if h.sym_mode:
+        for idx in np.ndindex(2, 2):
+            h.assume(a[idx] != 0)
+            h.assume(b[idx] != 0)
+        h.assume(c != 0)
+    A, B = Fld(a), Fld(b)
+    h.sample(dict(field_class=Fld.__name__))
+    val = lambda r: np.asarray(r.value if isinstance(r, Fld) else r)
+    table = [('field - field', lambda: A - B, a - b), ('field + field', lambda: A + B, a + b), ('field * field', lambda: A * B, a * b),
+             ('field / field', lambda: A / B, a / b), ('field - array', lambda: A - b, a - b), ('array - field', lambda: b - A, b - a),
+             ('field - scalar', lambda: A - c, a - c), ('scalar - field', lambda: c - A, c - a), ('scalar / field', lambda: c / A, c / a),
+             ('field / scalar', lambda: A / c, a / c), ('scalar * field', lambda: c * A, c * a), ('field ** 2', lambda: A ** 2, a * a),
+             ('array / field', lambda: b / A, b / a), ('field[0]', lambda: A[0], a[0]), ('field[1, 0] - field[0, 1]', lambda: A[1, 0] - B[0, 1], a[1, 0] - b[0, 1])]
+    if variant == 'np':
+        table += [('-field', lambda: -A, -a)]
+    for name, fn, want in table:
+        try:
+            got = val(fn())
+        except TypeError as e:
+            if variant == 'jax' and name in ('array - field', 'array / field'):
+                continue      # ndarray.__sub__ takes precedence over JaxDiscreteField.__rsub__ (elementwise object result): not an offered form
+            raise
+        h.equal(name, got, np.asarray(want))
 
 
 def nonlinear_floatpath_config(h, mesh, spec, scale):
@@ -394,6 +429,8 @@ def build_configs(tier, seed):
                                     ('tri2', 'ElementComposite(ElementTriP1(),ElementTriP0())', 'composite', [3])]:
         cfgs.append(dict(name='nonlinear/%s/%s/%s' % (mesh, spec, which), fn=nonlinear_config, kw=dict(mesh=mesh, spec=spec, which=which, free=free),
                          opts=dict(timeout=900)))
+    for variant in ('jax', 'np'):
+        cfgs.append(dict(name='field-ops/%s' % variant, fn=field_ops_config, kw=dict(variant=variant)))
     for scale in (1.0, 2.0 ** -24):
         cfgs.append(dict(name='nonlinear-floatpath/tri2/ElementTriP1/scale=%g' % scale, fn=nonlinear_floatpath_config,
                          kw=dict(mesh='tri2', spec='ElementTriP1', scale=scale), opts=dict(timeout=600)))
